@@ -134,6 +134,9 @@ func (r *Reader) Read(p []byte) (n int, err error) {
 		// reads may be invalid.
 		n = r.utf8.Accepted()
 		err = ErrInvalidUTF8
+		// The message is over: do not carry its decoder state into the
+		// next one.
+		r.reset()
 
 	default:
 		r.reset()
